@@ -472,7 +472,11 @@ type fire struct {
 }
 
 // refreshSim is the scheduler-side state and oracle of a RefreshWorker run.
+const refreshTimeout = 10 * time.Second
+
 type refreshSim struct {
+	consTimeout bool // the context constructor sets a timeout
+
 	k  *kernel.Kernel
 	rc *kernel.RunCtx
 	tp *kernel.Tape
@@ -638,6 +642,11 @@ func (c simCons) New(parent context.Context) (context.Context, context.CancelFun
 	s := c.s
 	id := s.k.Ask("ctxcons.id", func() any { s.ctxSeq++; return s.ctxSeq }).(int)
 	ctx, cancel := context.WithCancel(context.WithValue(parent, ctxKey{}, &marker{id: id}))
+	if s.consTimeout {
+		// What contextutil.TimeoutConstructor does.
+		cancel()
+		ctx, cancel = context.WithTimeout(context.WithValue(parent, ctxKey{}, &marker{id: id}), refreshTimeout)
+	}
 	s.k.Tell("ctxcons.New", func() {
 		t := s.k.LastRun()
 		if _, ok := s.made[t]; ok {
@@ -716,6 +725,17 @@ func (r simRefresher) Refresh(ctx context.Context) error {
 	for i := 0; i < res[0].(int); i++ {
 		s.k.Yield("refresher.slow")
 	}
+	if s.consTimeout && res[0].(int) == 3 {
+		// The refresh overruns the deadline of its context (simulated time
+		// passes while the scheduler goroutine sleeps in the bubble's fake
+		// time); what it returns is still what it returns.
+		s.k.Ask("refresher.overrun", func() any {
+			time.Sleep(refreshTimeout + time.Second)
+			s.rc.Stats.Fault("refresh-overruns-context-deadline")
+
+			return nil
+		})
+	}
 	if res[2].(bool) {
 		// zeroRace: this worker refresh stays in flight until Shutdown has
 		// returned.
@@ -770,10 +790,16 @@ func runRefresh(rc *kernel.RunCtx, k *kernel.Kernel) {
 	shutBase, cancelShut := context.WithCancel(context.Background())
 	defer cancelShut()
 	if tp.Bool(1, 5) {
-		// Shutdown is called with a context that is already done.
+		// Shutdown is called with a context that is already done: cancelled,
+		// or past its deadline.
 		cancelShut()
+		if tp.Bool(1, 2) {
+			shutBase, cancelShut = context.WithDeadline(context.Background(), time.Unix(1, 0))
+			defer cancelShut()
+		}
 		rc.Stats.Fault("shutdown-context-already-done")
 	}
+	s.consTimeout = tp.Bool(1, 4)
 	s.shutdownCtx = context.WithValue(shutBase, ctxKey{}, &marker{id: -2})
 	for i := 0; i < 16; i++ {
 		switch i % 4 {
